@@ -89,21 +89,31 @@ def classify(div, policy):
             return 'foreign', 'accepted although foreign guard(s) %s fail' % sorted(fails)
         # spec accepts, code rejects: charged only through the control rule
         c = div.get('control_ok')
+        if div.get('act', {}).get('name') in policy.get('complete_actions', []):
+            return 'violation', 'rejected although the specification accepts (the statement promises acceptance for this entry point)'
         if c is True:
             return 'violation', 'rejected although the specification accepts, and the control with this property\'s dimension relaxed is accepted'
         if c is None and policy.get('complete_without_control'):
             return 'violation', 'rejected although the specification accepts (statement is complete for this entry point)'
         return 'foreign', 'rejected although the specification accepts; control %s' % ('also rejected' if c is False else 'not defined')
+    def state_part():
+        fields = [d['field'] for d in div.get('diffs', [])]
+        own = list(policy.get('fields', [])) + list(policy.get('act_fields', {}).get(div.get('act', {}).get('name'), []))
+        return [f for f in fields if owned_field(f, own)]
     if kind == 'ret':
         name = div['act']['name']
         if name in policy.get('rets', []) or '*' in policy.get('rets', []):
             return 'violation', 'returned value differs'
+        if state_part():
+            return 'violation', 'state differs in %s (and the returned value differs)' % state_part()
         return 'foreign', 'returned value differs (foreign)'
     if kind == 'events':
         kinds = set(e.get('k') for e in div.get('spec', []) + div.get('code', []))
         oe = set(policy.get('events', []))
         if kinds & oe or '*' in oe:
             return 'violation', 'events differ: %s' % sorted(kinds & oe or kinds)
+        if state_part():
+            return 'violation', 'state differs in %s (and foreign events differ)' % state_part()
         return 'foreign', 'events differ (foreign kinds %s)' % sorted(kinds)
     if kind == 'state':
         fields = [d['field'] for d in div['diffs']]
@@ -178,6 +188,16 @@ def graph_job(prop, tier, seed, job, policy, known, acc):
     spec = job['spec']
     module = job['module']
     cfgname = job.get('cfg', spec)
+    design = None
+    if job.get('design_cfg'):
+        # the intended design (Deviations = {}): TLC must prove the property's invariants on it; the graph that
+        # is replayed comes from the instance with the recorded deviations switched on (cfg)
+        dout, drc, dsecs = run_tlc(spec, os.path.join(WORK, prop, job['design_cfg']), workers=job.get('workers', 8),
+                                   timeout=job.get('tlc_timeout', 1800), cfg=job['design_cfg'])
+        _i, _e, dstats = G.parse_tlc(dout)
+        if drc != 0 or dstats['distinct'] is None:
+            raise ToolError('TLC failed on the design instance %s (rc=%s): %s\n%s' % (job['design_cfg'], drc, dstats['error'], '\n'.join(dstats['log_tail'][-25:])))
+        design = {'cfg': job['design_cfg'], 'states': dstats['distinct'], 'generated': dstats['generated'], 'tlc_s': round(dsecs, 1)}
     outdir = os.path.join(WORK, prop, cfgname + job.get('suffix', ''))
     inst, edges, stats = tlc_graph(spec, outdir, cfg=cfgname, workers=job.get('workers', 8), timeout=job.get('tlc_timeout', 1800))
     g = G.Graph(edges)
@@ -207,12 +227,30 @@ def graph_job(prop, tier, seed, job, policy, known, acc):
     rsecs = time.time() - t
     walks_by_id = None
     nsteps = 0
+    # recorded deviations that were replayed and matched what the code does
+    dev_ids = {k.get('deviation'): k for k in known if k.get('status') == 'known' and k.get('property') == prop and k.get('deviation')}
+    if any('dev' in s_['exp'] for e_ in [edges] for s_ in e_):
+        labelled = {}
+        with open(wpath) as f:
+            f.readline()
+            for l in f:
+                w = json.loads(l)
+                labelled[w['id']] = [(i, s_['exp']['dev']) for i, s_ in enumerate(w['steps']) if 'dev' in s_['exp']]
+        for r in results:
+            div = r.get('divergence')
+            upto = r['steps_run'] - (1 if div else 0)
+            for i, dv in labelled.get(r['walk'], []):
+                if i < upto and dv in dev_ids:
+                    acc['known'].setdefault(dev_ids[dv]['id'], dev_ids[dv])
     for r in results:
         nsteps += r['steps_run']
         if r.get('harness_error'):
             raise ToolError('harness error in walk %s of %s: %s' % (r['walk'], spec, r['harness_error']))
         div = r.get('divergence')
         if not div:
+            continue
+        if div['kind'] == 'intended':
+            acc.setdefault('fixed_findings', []).append(div.get('dev'))
             continue
         if div['kind'] == 'init':
             raise ToolError('the harness cannot construct the initial state of %s: %s' % (spec, json.dumps(div)[:600]))
@@ -238,7 +276,7 @@ def graph_job(prop, tier, seed, job, policy, known, acc):
         else:
             acc['foreign'].append({'spec': spec, 'kind': div['kind'], 'act': div.get('act', {}).get('name'), 'reason': reason})
     distinct_nontrivial = len({G.canon([e['act'], e['_pre']]) for i, e in enumerate(edges) if select is None or i in select})
-    acc['jobs'].append({'spec': spec, 'cfg': cfgname, 'module': module, 'states': stats['distinct'], 'transitions': len(edges),
+    acc['jobs'].append({'spec': spec, 'cfg': cfgname, 'design_run': design, 'module': module, 'states': stats['distinct'], 'transitions': len(edges),
                         'tlc_generated': stats['generated'], 'depth': stats['depth'], 'tlc_s': stats['tlc_s'],
                         'edges_replayed': len(edges) if select is None else len(select), 'walks': len(walks),
                         'steps_executed': nsteps, 'replay_s': round(rsecs, 1), 'exhaustive_replay': exhaustive,
@@ -251,16 +289,27 @@ def graph_job(prop, tier, seed, job, policy, known, acc):
 def parse_trace_out(path):
     res, done, err = [], None, None
     tail = []
+    disc = False
+    devs = []
     for line in open(path, errors='replace'):
         if line.startswith('<<"TRES", '):
             res.append(G._unq(line, 'TRES'))
+        elif line.startswith('<<"DEV", '):
+            devs.append(line.split('"')[3])
+        elif line.startswith('<<"DISCONTINUITY"'):
+            err = err or ('log not continuous at line ' + line.strip())
+            done = None
+            disc = True
         elif line.startswith('<<"TRACE_DONE"'):
+            if disc:
+                continue
             p = line.strip().strip('<>').split(',')
             done = (int(p[1]), int(p[2]))
         else:
             tail.append(line.rstrip())
             if line.startswith('Error:') and err is None:
                 err = line.strip()
+    parse_trace_out.devs = devs
     return res, done, err, tail[-25:]
 
 
@@ -285,12 +334,22 @@ def trace_job(prop, tier, seed, job, policy, known, acc):
         raise ToolError('TLC timed out validating the trace')
     if done is None or done[1] != nlines:
         raise ToolError('trace not consumed (%s of %d lines): %s\n%s' % (done, nlines, err, '\n'.join(tail)))
+    for dv in set(parse_trace_out.devs):
+        for k in known:
+            if k.get('status') == 'known' and k.get('property') == prop and k.get('deviation') == dv:
+                acc['known'].setdefault(k['id'], k)
     for r in res:
         div = dict(r)
         if div['kind']:
             verdict, reason = classify(div, policy)
         else:
             verdict, reason = 'foreign', 'line matches'
+        if r.get('dev') and r['dev'] != 'none' and not div['kind']:
+            # the line IS the recorded deviation (matched as such); the design invariant it breaks is the finding itself
+            for k in known:
+                if k.get('status') == 'known' and k.get('property') == prop and k.get('deviation') == r['dev']:
+                    acc['known'].setdefault(k['id'], k)
+            continue
         if verdict != 'violation' and r.get('inv'):
             # a design invariant fails on a state the implementation visited
             mine = [i for i in r['inv'] if i in policy.get('invariants', [])]
@@ -334,6 +393,48 @@ def trace_job(prop, tier, seed, job, policy, known, acc):
                         'events_by_action_outcome': names,
                         'distinct_nontrivial': len(names)})
     acc.setdefault('trace_samples', []).append({'trace_of': module, 'events': sample})
+
+
+def codec_job(prop, tier, seed, job, policy, known, acc):
+    """random codec cases recorded from the contract's abi_encode / abi_decode, validated by TraceAbi.tla"""
+    n = job[tier]
+    outdir = os.path.join(WORK, prop, 'trace_Abi')
+    os.makedirs(outdir, exist_ok=True)
+    trace = os.path.join(outdir, 'cases.ndjson')
+    p = subprocess.run(['timeout', '3000', CONFORM, 'drive', 'Abi', str(seed), '1', str(n), trace],
+                       stdout=subprocess.PIPE, stderr=subprocess.STDOUT, text=True)
+    if p.returncode != 0:
+        raise ToolError('conform drive Abi failed: ' + p.stdout[-2000:])
+    nlines = sum(1 for _ in open(trace))
+    out, rc, tsecs = run_tlc(job['spec'], outdir, workers=1, timeout=job.get('tlc_timeout', 3600),
+                             extra_env={'TRACE': trace, 'JAVA_TOOL_OPTIONS': '-Xss1g -Dtlc2.tool.queue.IStateQueue=StateDeque'})
+    res, done, err, tail = parse_trace_out(out)
+    if done is None or done[1] != nlines:
+        raise ToolError('codec cases not consumed (%s of %d lines): %s\n%s' % (done, nlines, err, '\n'.join(tail)))
+    lines = None
+    for r in res:
+        if lines is None:
+            lines = open(trace).readlines()
+        body = {'property': prop, 'tier': tier, 'seed': seed, 'kind': 'codec_case', 'line': r['l'], 'problem': r['kind'],
+                'spec': r.get('spec'), 'record': json.loads(lines[r['l'] - 1])}
+        os.makedirs(os.path.join(ROOT, 'replays'), exist_ok=True)
+        h = hashlib.sha1(json.dumps(body, sort_keys=True).encode()).hexdigest()[:12]
+        path = os.path.join(ROOT, 'replays', '%s-codec-%s.json' % (prop, h))
+        json.dump(body, open(path, 'w'), indent=1)
+        acc['violations'].append({'replay': path, 'reason': 'codec case disagrees with Abi.tla: ' + r['kind'], 'spec': job['spec'], 'act': {'op': r.get('op')}})
+    kinds = {}
+    sample = []
+    with open(trace) as f:
+        f.readline()
+        for l in f:
+            o = json.loads(l)
+            k = '%s/%s' % (o['op'], 'ok' if o['ok'] else 'rejected')
+            kinds[k] = kinds.get(k, 0) + 1
+            if len(sample) < 2 and o['op'] == 'decode' and o['ok']:
+                sample.append({'op': 'decode', 'bytes': len(o['b']), 'decoded': {k2: (v if not isinstance(v, list) else '%d bytes' % len(v)) for k2, v in o['m'].items()}})
+    acc['jobs'].append({'spec': job['spec'], 'module': 'Abi', 'traces': 1, 'trace_events': nlines - 1, 'mismatches': len(res),
+                        'tlc_s': round(tsecs, 1), 'events_by_action_outcome': kinds, 'distinct_nontrivial': nlines - 1})
+    acc.setdefault('trace_samples', []).append({'trace_of': 'Abi', 'events': sample})
 
 
 def write_evidence(prop, tier, seed, acc, wall, level_rule, assumptions):
